@@ -12,6 +12,8 @@ VERIF = os.path.dirname(HERE)
 PY = os.path.join(VERIF, ".venv", "bin", "python")
 WORKER = os.path.join(HERE, "xh_worker.py")
 ZORG_SRC = os.environ.get("ZORG_SRC", "/repo/src")
+CC_MAX = int(os.environ.get("VERIF_CC_MAX", "300"))         # engine cross-validation: concrete runs per confirmed condition
+CC_BUDGET = float(os.environ.get("VERIF_CC_BUDGET", "60"))   # ... and seconds
 NPROC = int(os.environ.get("VERIF_JOBS", str(os.cpu_count() or 8)))
 
 
@@ -24,6 +26,9 @@ class Cond:
     twin: bool = False           # run in reachability-twin mode (XH_TWIN=1)
     env: dict = field(default_factory=dict)
     meta: dict = field(default_factory=dict)
+    # engine cross-validation (concrete_worker.py) of a CONFIRMED condition whose arguments are all int/bool: None = on with
+    # the default sample size, False = off, or {"ranges": [[lo,hi),..], "max": N}
+    cc: object = None
 
 
 def _env(extra=None, twin=False):
@@ -62,6 +67,11 @@ def run_one(c: Cond) -> dict:
     except subprocess.TimeoutExpired:
         res["status"] = "inconclusive"
         res["detail"] = "wall timeout %.0fs" % wall
+    if c.cc is not False and not c.twin and res["status"] == "confirmed" and CC_MAX > 0:
+        spec = dict(c.cc or {})
+        spec.setdefault("max", CC_MAX)
+        spec.setdefault("budget_s", CC_BUDGET)
+        res["cc"] = concrete_sweep(c.module, c.name, spec, c.env, timeout=CC_BUDGET * 2 + 120)
     res["wall_s"] = round(time.time() - t0, 2)
     res["twin"] = c.twin
     res["meta"] = c.meta
@@ -89,12 +99,15 @@ def run_all(conds, jobs=None, progress=True):
     return out
 
 
-def concrete_sweep(module, name, ranges, env=None, timeout=600):
-    """Engine cross-validation (vlib/concrete_worker.py): the harness function, untraced, on the whole finite space."""
+def concrete_sweep(module, name, spec, env=None, timeout=400):
+    """Engine cross-validation (vlib/concrete_worker.py): the harness function, untraced, on a finite argument space."""
     worker = os.path.join(os.path.dirname(os.path.abspath(__file__)), "concrete_worker.py")
     t0 = time.time()
-    p = subprocess.run([PY, worker, module, name, json.dumps(ranges)], env=_env(env), capture_output=True, text=True,
-                       timeout=timeout, cwd=os.path.dirname(module))
+    try:
+        p = subprocess.run([PY, worker, module, name, json.dumps(spec)], env=_env(env), capture_output=True, text=True,
+                           timeout=timeout, cwd=os.path.dirname(module))
+    except subprocess.TimeoutExpired:
+        return {"error": "wall timeout", "runs": 0, "bad": [], "n_bad": 0}
     for ln in p.stdout.splitlines():
         if ln.startswith("@@CC "):
             out = json.loads(ln[5:])
